@@ -14,7 +14,9 @@ PROPERTY = 'C06'
 RULE = ('full product spaces: (sites) all protein strings of length 0..L over {K,R,P,D,E,A,F,L,G} x 27 rules; (spans) all '
         'site subsets of {0..n}, n<=N x mc 0..4 x semi x min_len x max_len in {None,1..n+1} for every span builder; '
         '(e2e) all proteins of length 0..Le over {K,R,P,D,E,A} x 1-3 rules of 11 x mc x semi x min/max x complete x 5 '
-        'return types x sort; non-trivial = at least one cleavage site (sites/e2e) or a non-empty site subset (spans)')
+        'return types x sort; (long) every cyclic window of length 12/30/60 (quick) or 9..60 (thorough) of a fixed 75-letter '
+        'word over 20 residues: sites for all 32 rules, digests for 12 rule sets x mc {0,1,2,4} x semi x 4 length bounds, '
+        'non-specific, sequential; non-trivial = at least one cleavage site (sites/e2e) or a non-empty site subset (spans)')
 ASSUMPTIONS = ['named proteases are specified by the hand-written predicates in NAMED (one per documented rule)',
                'user regexes: site = i for a zero-width match at i, i+1 for a consuming match starting at i (stdlib re)',
                'spans are compared as sets of (start,end,missed) triples; duplicates in generator output are tolerated',
@@ -107,7 +109,7 @@ def describe(tier):
     return {'sites_len': 6 if th else 5, 'spans_n': 9 if th else 7, 'e2e_len': 5 if th else 4,
             'e2e_max_len_per_rule_count': RMAX[tier],
             'mc_spans': [0, 4], 'mc_e2e': [0, 3] if th else [0, 2], 'user_regexes': USER_REGEX,
-            'e2e_rules': E2E_RULES}
+            'e2e_rules': E2E_RULES, 'long_word': LONG_WORD, 'long_window_lengths': LONG_LENS[tier]}
 
 
 RMAX = {'quick': {1: 4, 2: 3, 3: 2}, 'thorough': {1: 5, 2: 4, 3: 4}}
@@ -115,9 +117,16 @@ E2E_RULES = ['trypsin', 'trypsin/P', 'lys-c', 'lys-n', 'asp-n', 'glu-c', 'arg-c'
              'non-specific', 'no-cleave']
 
 
+# upper part of the quantifier (proteins up to length 60 over all residues): every cyclic window of the given lengths of a
+# fixed 75-letter word (start of serum albumin + a tail with KP / RP / DE / GW / YN neighbours)
+LONG_WORD = 'MKWVTFISLLFLFSSAYSRGVFRRDAHKSEVAHRFKDLGEENFKALVLIAFAQYLQQCPFEDHVK' + 'KPRPDEGWYN'
+LONG_LENS = {'quick': [12, 30, 60], 'thorough': [9, 12, 20, 30, 45, 60]}
+LONG_RULES = ['trypsin', 'trypsin/P', 'lys-c', 'lys-n', 'asp-n', 'glu-c', 'chymotrypsin', 'proalanase', '([KR])', '(?=D)']
+
+
 def shards(tier):
     d = describe(tier)
-    out = []
+    out = [{'kind': 'long', 'n': n, 'lo': lo} for n in LONG_LENS[tier] for lo in range(0, len(LONG_WORD), 5)]
     for n in range(0, d['sites_len'] + 1):
         for pre in (itertools.product(SITE_ALPHA, repeat=min(n, 2))):
             out.append({'kind': 'sites', 'n': n, 'pre': ''.join(pre)})
@@ -135,6 +144,10 @@ def shards(tier):
 def gen(shard, tier):
     d = describe(tier)
     n = shard['n']
+    if shard['kind'] == 'long':
+        for st in range(shard['lo'], min(shard['lo'] + 5, len(LONG_WORD))):
+            yield {'kind': 'long', 's': (LONG_WORD + LONG_WORD)[st:st + n]}, n, True
+        return
     if shard['kind'] == 'sites':
         for t in itertools.product(SITE_ALPHA, repeat=n - len(shard['pre'])):
             s = shard['pre'] + ''.join(t)
@@ -174,9 +187,57 @@ def _spanset(ctx, fn, *a, **k):
     return got, None
 
 
+def _long(case, ctx, p):
+    s = case['s']
+    n = len(s)
+    tot = 0
+    for rule in list(NAMED) + USER_REGEX:
+        exp = ref_sites(s, rule)
+        got, err = _spanset(ctx, p.get_cleavage_sites, s, rule)
+        if err is not None or sorted(set(got)) != exp:
+            ctx.fail('sites', exp, err if err is not None else sorted(got), call=['get_cleavage_sites', s, rule])
+    rule_sets = [[r] for r in LONG_RULES] + [['trypsin', 'asp-n'], ['lys-c', 'glu-c', 'chymotrypsin']]
+    for rules in rule_sets:
+        sites = sorted(set(x for r in rules for x in ref_sites(s, r)))
+        for mc in (0, 1, 2, 4):
+            for semi in ((False, True) if n <= 30 else (False,)):
+                for mn, mx in ((None, None), (7, 30), (None, 12), (6, None)):
+                    exp = ref_spans(n, sites, mc, mn, mx, semi)
+                    tot += len(exp)
+                    got, err = _spanset(ctx, p.digest, s, list(rules), mc, semi, mn, mx, True, 'span', True)
+                    if err is not None or set(got) != exp:
+                        ctx.fail('digest-spans', sorted(exp)[:40], err if err is not None else sorted(got)[:40],
+                                 call=['digest', s, rules, mc, semi, mn, mx, True], sites=sites)
+                        continue
+                    if mc == 1 and not semi and (mn, mx) == (7, 30):
+                        g2, err = _spanset(ctx, p.digest, s, list(rules), mc, semi, mn, mx, True, 'str', True)
+                        if err is not None or g2 != [s[a:b] for a, b, _ in got]:
+                            ctx.fail('digest-return-type', [s[a:b] for a, b, _ in got], err if err is not None else g2,
+                                     call=['digest', s, rules, mc, semi, mn, mx, True, 'str'])
+    # non-specific rule, and a sequential digest with two and three complete stages
+    for mn, mx in ((None, None), (7, 30)):
+        exp = ref_nonspecific(0, n, mn, mx)
+        got, err = _spanset(ctx, p.digest, s, 'non-specific', 0, False, mn, mx, True, 'span', True)
+        if err is not None or set(got) != exp:
+            ctx.fail('digest-spans', len(exp), err if err is not None else len(got), call=['digest', s, 'non-specific', mn, mx])
+    for rules in (['trypsin', 'asp-n'], ['glu-c', 'lys-c', 'chymotrypsin']):
+        sites = sorted(set(x for r in rules for x in ref_sites(s, r)))
+        sim = {(a, b) for a, b, _ in ref_spans(n, sites, 0, None, None, False)}
+        cfgs = [p.EnzymeConfig([r], 0, False, True) for r in rules]
+        for lo, hi in ((None, None), (3, 9)):
+            exp = {(a, b) for a, b in sim if (lo is None or b - a >= lo) and (hi is None or b - a <= hi)}
+            got, err = _spanset(ctx, p.sequential_digest, s, cfgs, lo, hi, 'span')
+            if err is not None or {(a, b) for a, b, _ in got} != exp:
+                ctx.fail('sequential-bounds' if lo else 'sequential-complete', sorted(exp), err if err is not None else sorted(got),
+                         call=['sequential_digest', s, rules, lo, hi])
+    ctx.outcome = [s, tot]
+
+
 def check(case, ctx):
     p = lib.pt()
     kind = case['kind']
+    if kind == 'long':
+        return _long(case, ctx, p)
     if kind == 'sites':
         s = case['s']
         tot = 0
